@@ -235,6 +235,35 @@ func c05Sizes(r *core.Report, pk string) {
 	} else {
 		em, okE := emitPoly(p, seal, loop.Body.List, wObj, 0)
 		rec, okR := polyOfExpr(p, seal, advAdd, 0)
+		// the whole bucket (clean set, writes, size) is produced by one helper that returns the size it wrote:
+		//   size, err := writeBucket(out, ...);  off += size
+		// then what is written and what is reported are compared inside that helper, in its own variables
+		if !okE || !okR {
+			if h, hw, resIdx := sizeReturningWriter(p, seal, advAdd, wObj); h != nil {
+				hg := p.Graph(h)
+				em2, ok2 := emitPoly(p, h, h.Body.List, hw, 1)
+				var rec2 sizePoly
+				okRec, have := true, false
+				for _, rn := range hg.Returns() {
+					if definitelyErrorReturn(hg, h, rn) {
+						continue
+					}
+					rr := returnResults(rn)
+					if resIdx >= len(rr) {
+						okRec = false
+						continue
+					}
+					pe, okp := polyOfExpr(p, h, rr[resIdx], 1)
+					if !okp || (have && !pe.equal(rec2)) {
+						okRec = false
+					}
+					rec2, have = pe, true
+				}
+				if ok2 && okRec && have {
+					em, okE, rec, okR = em2, true, rec2, true
+				}
+			}
+		}
 		cntW, elW = em.countWidth, em.elemWidth
 		var term types.Object
 		nTerms := 0
@@ -347,6 +376,31 @@ func c05Sizes(r *core.Report, pk string) {
 			}
 		}
 	}
+	// the element getter handed to the search: a literal of Has, or a method value / function of the package
+	// (bucket.hashAt) - its first parameter is the element index
+	getters := map[*core.Func]bool{}
+	for _, fnS := range scope {
+		for _, c := range core.CallsIn(fnS.Body, true) {
+			for _, a := range c.Args {
+				var fo *types.Func
+				switch x := core.Unparen(a).(type) {
+				case *ast.SelectorExpr:
+					fo, _ = hi.Uses[x.Sel].(*types.Func)
+				case *ast.Ident:
+					fo, _ = hi.Uses[x].(*types.Func)
+				}
+				if fo == nil {
+					continue
+				}
+				if gf := p.ByObj[fo.Origin()]; gf != nil && gf.Body != nil && gf.Pkg == has.Pkg && gf.ParamObj(0) != nil && gf.ParamObj(1) == nil {
+					if b, isB := gf.ParamObj(0).Type().Underlying().(*types.Basic); isB && b.Info()&types.IsInteger != 0 {
+						getters[gf] = true
+						scope = append(scope, gf)
+					}
+				}
+			}
+		}
+	}
 	for _, fn := range scope {
 		ast.Inspect(fn.Body, func(n ast.Node) bool {
 			switch x := n.(type) {
@@ -366,10 +420,19 @@ func c05Sizes(r *core.Report, pk string) {
 									if o == nil {
 										continue
 									}
-									if d := singleDef(has, o); d != nil {
+									// the bucket offset looked up in the prefix table, possibly through a few converted copies
+									// (bucketStart := int64(offset))
+									for hop := 0; hop < 4 && o != nil; hop++ {
+										d := singleDef(has, o)
+										if d == nil {
+											break
+										}
+										d = stripConvs(hi, d)
 										if _, isIx := core.Unparen(d).(*ast.IndexExpr); isIx {
 											skip = v
+											break
 										}
+										o = core.ObjOf(hi, d)
 									}
 								}
 							}
@@ -378,7 +441,7 @@ func c05Sizes(r *core.Report, pk string) {
 				}
 			case *ast.BinaryExpr:
 				// <getter's index parameter> * K
-				if x.Op == token.MUL && fn.Lit != nil && fn.ParamObj(0) != nil && core.ObjOf(hi, x.X) == types.Object(fn.ParamObj(0)) {
+				if x.Op == token.MUL && (fn.Lit != nil || getters[fn]) && fn.ParamObj(0) != nil && core.ObjOf(hi, x.X) == types.Object(fn.ParamObj(0)) {
 					stride, _ = core.ConstInt(hi, x.Y)
 				}
 			}
@@ -388,6 +451,11 @@ func c05Sizes(r *core.Report, pk string) {
 	elRead := int64(-1)
 	for _, l := range has.Lits {
 		if w := decodeWidth(hi, l.Body, true); w > 0 {
+			elRead = w
+		}
+	}
+	for gf := range getters {
+		if w := decodeWidth(hi, gf.Body, true); w > 0 {
 			elRead = w
 		}
 	}
@@ -708,6 +776,16 @@ func c05Orientation(r *core.Report, pk string) {
 	info := seal.Pkg.TypesInfo
 	// writer: the comparator returns a negative value exactly where the element at i is smaller than the element at j
 	asc := false
+	// the function that sorts and lays out a bucket: seal itself, or a helper of the package it calls (writeBucket)
+	if !fnCallsNamed(p, seal, pk+".sortWithCompare") {
+		for _, h := range pkgScope(p, seal, 1) {
+			if h.Lit == nil && h != seal && fnCallsNamed(p, h, pk+".sortWithCompare") {
+				seal = h
+				info = h.Pkg.TypesInfo
+				break
+			}
+		}
+	}
 	for _, c := range core.CallsIn(seal.Body, false) {
 		if core.CalleeName(info, c) == pk+".sortWithCompare" && len(c.Args) == 2 {
 			if lit, ok := core.Unparen(c.Args[1]).(*ast.FuncLit); ok {
@@ -839,4 +917,58 @@ func advancedInLoopOf(f *core.Func, stmt ast.Node, o types.Object) bool {
 		return true
 	})
 	return found
+}
+
+// sizeReturningWriter: sizeExpr is a local of fn assigned once from a call `size, err := h(w, ...)` of a repository
+// function that receives the writer w; returns h, h's writer parameter and the index of the size among h's results.
+func sizeReturningWriter(p *core.Prog, fn *core.Func, sizeExpr ast.Expr, w types.Object) (*core.Func, types.Object, int) {
+	info := fn.Pkg.TypesInfo
+	o := core.ObjOf(info, stripConvs(info, sizeExpr))
+	if o == nil {
+		return nil, nil, -1
+	}
+	var call *ast.CallExpr
+	idx, n := -1, 0
+	ast.Inspect(fn.Body, func(m ast.Node) bool {
+		as, ok := m.(*ast.AssignStmt)
+		if !ok || len(as.Rhs) != 1 {
+			return true
+		}
+		for i, l := range as.Lhs {
+			if core.ObjOf(info, l) == o {
+				n++
+				if c, isCall := core.Unparen(as.Rhs[0]).(*ast.CallExpr); isCall && len(as.Lhs) > 1 {
+					call, idx = c, i
+				}
+			}
+		}
+		return true
+	})
+	if n != 1 || call == nil {
+		return nil, nil, -1
+	}
+	fo := core.Callee(info, call)
+	if fo == nil {
+		return nil, nil, -1
+	}
+	h := p.ByObj[fo.Origin()]
+	if h == nil || h.Body == nil {
+		return nil, nil, -1
+	}
+	for ai, a := range call.Args {
+		if core.ObjOf(info, a) == w && h.ParamObj(ai) != nil {
+			return h, h.ParamObj(ai), idx
+		}
+	}
+	return nil, nil, -1
+}
+
+// fnCallsNamed: fn (not its literals' callees' callees) contains a call of the function with that short name.
+func fnCallsNamed(p *core.Prog, fn *core.Func, name string) bool {
+	for _, cs := range p.Calls(fn) {
+		if cs.Name == name {
+			return true
+		}
+	}
+	return false
 }
